@@ -9,7 +9,8 @@ import "sync"
 // (so that both "set" and "unset" mutations are visible): element 0 a nested
 // Stack (native or alias), element 1 a Condition whose expression is a Stack,
 // element 2 text, element 3 an int.  Option bits are symbolic.  variant bit 0:
-// user closures installed; bit 1: mutex enabled; bit 2: capacity set.
+// user closures installed; bit 1: mutex enabled; bit 2: capacity set; bit 3: a
+// nested Condition has a failing unmarshaler.
 func vhRich(variant int, optMask cfgFlag) (Stack, *nodeConfig) {
 	capMode := 0
 	if variant&4 != 0 {
@@ -45,6 +46,10 @@ func vhRich(variant int, optMask cfgFlag) (Stack, *nodeConfig) {
 		cfg.umf = func(...any) ([]any, error) { return []any{"custom"}, nil }
 		cfg.maf = func(...any) error { return nil }
 	}
+	if variant&8 != 0 {
+		// only a NESTED Condition carries an unmarshaler, and it fails
+		c.condition.cfg.umf = func(...any) ([]any, error) { return nil, errorf("nested unmarshaler refuses") }
+	}
 	if variant&2 != 0 {
 		cfg.mtx = &sync.Mutex{}
 		inner.SetMutex()
@@ -60,7 +65,8 @@ func vhRichCond(variant int, optMask cfgFlag) Condition {
 	if variant&2 != 0 {
 		c = Cond("kw", Lt, "text")
 	} else {
-		c = Cond("kw", Lt, Or().Push("x1", "x2"))
+		// the Stack expression is native, an alias or a pointer to an alias
+		c = Cond("kw", Lt, vhWrapStack(Or().Push("x1", "x2"), []int{0, 1, 3}[nondetChoice(3)]))
 	}
 	cfg := c.condition.cfg
 	cfg.opt = cfgFlag(nondetUint16()) & optMask
